@@ -83,7 +83,8 @@ func genC15(r *rand.Rand, t *Trace, thorough bool) {
 				top1     float64 // top-1-in-10 floor (0 = not required)
 				exactOne bool    // recall must be exactly 1.0
 			}
-			hn, _ := comet.NewHNSWIndex(dim, metrics[mz], 16, 200, 200)
+			// "HNSW with default parameters": the documented way to ask for them is 0 (M 16, ef 200 / 200)
+			hn, _ := comet.NewHNSWIndex(dim, metrics[mz], 0, 0, 0)
 			ivf, _ := comet.NewIVFIndex(dim, nlist, metrics[mz])
 			pq, _ := comet.NewPQIndex(dim, metrics[mz], 8, 8)
 			ivfpq, _ := comet.NewIVFPQIndex(dim, metrics[mz], nlist, 8, 8)
